@@ -751,6 +751,9 @@ def execute(desc):
                 one(i, spec, k, op.get("exc"), "enum")
                 one(i, PROBES[k % len(PROBES)], None, None, "probe")
                 probes["enumerated_crash_points"] += 1
+            if op.get("keep"):
+                # later calls may name this op's object: make the op's own call too, keeping the object
+                one(i, spec, op.get("k"), op.get("exc"), "op", keep=True)
         else:
             one(i, spec, op.get("k"), op.get("exc"), "op", keep=bool(op.get("keep")))
     for j, p in enumerate(PROBES):
